@@ -305,7 +305,7 @@ C15_Converged ==
                  /\ LastIndex(node[j], disk[j]) = last /\ LastTerm(node[j], disk[j]) = LastTerm(n, disk[l])
                  /\ node[j].commit = last /\ node[j].applied = last
                  /\ node[j].uents = <<>> /\ ~node[j].usnap.has
-                 /\ app[j].phase = "idle" /\ app[j].appendQ = <<>> /\ app[j].applyQ = <<>>
+                 /\ app[j].phase = "idle" /\ app[j].appendQ = <<>> /\ app[j].applyQ = <<>> /\ app[j].localQ = <<>>
                  /\ node[j].cfg = n.cfg
            /\ \A k \in DOMAIN n.prs :
                  n.prs[k].id # l => (n.prs[k].state = "Replicate" /\ n.prs[k].match = last /\ ~n.prs[k].paused)
@@ -409,7 +409,7 @@ C20_ProposedAtLeaderOnce ==
 C20_QueuedIntact ==
   (BothUp /\ A.name # "Ready") =>
     /\ Len(Post.msgs) >= Len(Pre.msgs) /\ SubSeq(Post.msgs, 1, Len(Pre.msgs)) = Pre.msgs
-    /\ (A.name \notin {"Advance", "AppendThread"} =>
+    /\ (A.name \notin {"Advance", "AppendThread", "LocalResp"} =>
           (Len(Post.after) >= Len(Pre.after) /\ SubSeq(Post.after, 1, Len(Pre.after)) = Pre.after))
 \* a proposal forwarded by a follower travels as one MsgProp with exactly the proposed entries
 C20_ForwardIntact ==
